@@ -452,13 +452,662 @@ theorem no_match_iff (m : Mix V) (re : Bytes → Bytes → Bool) (name : Bytes) 
         · intro h; exact absurd h hr
         · intro h; exact absurd ((filt _ _).mpr h.1) hr
 
+/-! ### From the rule list to the `MixMatcher`: a set's own matcher matches iff some rule describes the name -/
+
+/-- The property's reading of the four rule types, on the normalised name. `domain:` - the rule's labels
+are the last labels of the name (a prefix of the right-to-left label sequence). -/
+def describes (re : Bytes → Bytes → Bool) (r : Kind × Bytes) (name : Bytes) : Prop :=
+  match r.1 with
+  | .full => norm r.2 = norm name
+  | .domain => scan (norm r.2) <+: scan (norm name)
+  | .regexp => re r.2 (norm name) = true
+  | .keyword => isInfix (norm r.2) (norm name) = true
+
+def keys (l : List (Bytes × Unit)) : List Bytes := l.map (·.1)
+
+theorem keys_upsert (l : List (Bytes × Unit)) (k k' : Bytes) (v : Unit) :
+    k' ∈ keys (upsert l k v) ↔ k' ∈ keys l ∨ k' = k := by
+  unfold upsert keys
+  split
+  · rename_i h
+    have hmap : (l.map (fun p => if p.1 == k then (k, v) else p)).map (·.1) = l.map (·.1) := by
+      rw [List.map_map]
+      apply List.map_congr_left
+      intro p _
+      by_cases hp : p.1 == k
+      · simp only [Function.comp, hp, if_true]; exact (eq_of_beq hp).symm
+      · simp [Function.comp, hp]
+    rw [hmap]
+    constructor
+    · intro h'; exact Or.inl h'
+    · rintro (h' | rfl)
+      · exact h'
+      · obtain ⟨p, hp, hpk⟩ := List.any_eq_true.mp h
+        exact List.mem_map.mpr ⟨p, hp, eq_of_beq hpk⟩
+  · simp [List.map_append, List.mem_append]
+
+theorem find_none_iff (l : List (Bytes × Unit)) (n : Bytes) :
+    l.find? (fun p => p.1 == n) = none ↔ n ∉ keys l := by
+  unfold keys
+  rw [List.find?_eq_none]
+  simp only [List.mem_map, not_exists, not_and]
+  constructor
+  · intro h p hp e; exact h p hp (by simp [e])
+  · intro h p hp e; exact h p hp (eq_of_beq e)
+
+theorem all_keys_iff (l : List (Bytes × Unit)) (f : Bytes → Bool) :
+    (∀ p ∈ l, f p.1 = false) ↔ ∀ k ∈ keys l, f k = false := by
+  unfold keys
+  simp only [List.mem_map]
+  constructor
+  · rintro h k ⟨p, hp, rfl⟩; exact h p hp
+  · intro h p hp; exact h p.1 ⟨p, hp, rfl⟩
+
+/-- the rules `rs` loaded into `m0`, oldest first -/
+def loadRules (m0 : Mix Unit) (rs : List (Kind × Bytes)) : Mix Unit := rs.foldl (fun m r => m.add r.1 r.2 ()) m0
+
+theorem full_keys (rs : List (Kind × Bytes)) : ∀ (m0 : Mix Unit) (k : Bytes),
+    k ∈ keys (loadRules m0 rs).full ↔ k ∈ keys m0.full ∨ ∃ r ∈ rs, r.1 = .full ∧ norm r.2 = k := by
+  induction rs with
+  | nil => intro m0 k; simp [loadRules]
+  | cons r rs ih =>
+    intro m0 k
+    show k ∈ keys (loadRules (m0.add r.1 r.2 ()) rs).full ↔ _
+    rw [ih]
+    obtain ⟨kd, p⟩ := r
+    cases kd <;> simp [Mix.add, keys_upsert, eq_comm, or_assoc]
+
+theorem regexp_keys (rs : List (Kind × Bytes)) : ∀ (m0 : Mix Unit) (k : Bytes),
+    k ∈ keys (loadRules m0 rs).regexp ↔ k ∈ keys m0.regexp ∨ ∃ r ∈ rs, r.1 = .regexp ∧ r.2 = k := by
+  induction rs with
+  | nil => intro m0 k; simp [loadRules]
+  | cons r rs ih =>
+    intro m0 k
+    show k ∈ keys (loadRules (m0.add r.1 r.2 ()) rs).regexp ↔ _
+    rw [ih]
+    obtain ⟨kd, p⟩ := r
+    cases kd <;> simp [Mix.add, keys_upsert, eq_comm, or_assoc]
+
+theorem keyword_keys (rs : List (Kind × Bytes)) : ∀ (m0 : Mix Unit) (k : Bytes),
+    k ∈ keys (loadRules m0 rs).keyword ↔ k ∈ keys m0.keyword ∨ ∃ r ∈ rs, r.1 = .keyword ∧ norm r.2 = k := by
+  induction rs with
+  | nil => intro m0 k; simp [loadRules]
+  | cons r rs ih =>
+    intro m0 k
+    show k ∈ keys (loadRules (m0.add r.1 r.2 ()) rs).keyword ↔ _
+    rw [ih]
+    obtain ⟨kd, p⟩ := r
+    cases kd <;> simp [Mix.add, keys_upsert, eq_comm, or_assoc]
+
+/-- the `domain:` rules among `rs` as label paths -/
+def domRules : List (Kind × Bytes) → List (List Label × Unit)
+  | [] => []
+  | (.domain, p) :: rs => (scan (norm p), ()) :: domRules rs
+  | (.full, _) :: rs => domRules rs
+  | (.regexp, _) :: rs => domRules rs
+  | (.keyword, _) :: rs => domRules rs
+
+theorem mem_domRules (rs : List (Kind × Bytes)) (q : List Label) :
+    (∃ x ∈ domRules rs, x.1 = q) ↔ ∃ r ∈ rs, r.1 = .domain ∧ scan (norm r.2) = q := by
+  induction rs with
+  | nil => simp [domRules]
+  | cons r rs ih =>
+    obtain ⟨kd, p⟩ := r
+    cases kd <;> simp [domRules, ih]
+
+theorem domain_trie (rs : List (Kind × Bytes)) : ∀ (m0 : Mix Unit),
+    (loadRules m0 rs).domain = (domRules rs).foldl (fun t r => t.add r.1 r.2) m0.domain := by
+  induction rs with
+  | nil => intro m0; simp [loadRules, domRules]
+  | cons r rs ih =>
+    intro m0
+    show (loadRules (m0.add r.1 r.2 ()) rs).domain = _
+    rw [ih]
+    obtain ⟨kd, p⟩ := r
+    cases kd <;> simp [Mix.add, domRules]
+
+theorem lastValue_none_iff (rs : List (List Label × Unit)) (q : List Label) :
+    lastValue rs q = none ↔ ¬ ∃ x ∈ rs, x.1 = q := by
+  unfold lastValue
+  rw [Option.map_eq_none_iff, List.find?_eq_none]
+  simp only [List.mem_reverse, not_exists, not_and]
+  constructor
+  · intro h x hx e; exact h x hx (by simp [e])
+  · intro h x hx e; exact h x hx (eq_of_beq e)
+
+/-- **C12 (first sentence).** A `MixMatcher` loaded with any list of rules matches a name if and only
+if some rule of the list describes the name. -/
+theorem rules_hit_iff (re : Bytes → Bytes → Bool) (rs : List (Kind × Bytes)) (name : Bytes) :
+    (mixOfRules rs).hit re name = true ↔ ∃ r ∈ rs, describes re r name := by
+  have hne : (mixOfRules rs).hit re name = true ↔ ¬ (mixOfRules rs).candidates re name = [] := by
+    unfold Mix.hit
+    cases (mixOfRules rs).candidates re name <;> simp
+  have hC : (∀ p ∈ (mixOfRules rs).regexp, re p.1 (norm name) = false) ↔
+      ∀ k ∈ keys (mixOfRules rs).regexp, re k (norm name) = false := all_keys_iff _ (fun k => re k (norm name))
+  have hD : (∀ p ∈ (mixOfRules rs).keyword, isInfix p.1 (norm name) = false) ↔
+      ∀ k ∈ keys (mixOfRules rs).keyword, isInfix k (norm name) = false := all_keys_iff _ (fun k => isInfix k (norm name))
+  rw [hne, no_match_iff, find_none_iff, hC, hD]
+  have hm : mixOfRules rs = loadRules {} rs := rfl
+  have hdom : (mixOfRules rs).domain = build (domRules rs) := by rw [hm, domain_trie]; rfl
+  rw [hdom, (domain_match (domRules rs) (scan (norm name))).1]
+  simp only [lastValue_none_iff, mem_domRules, hm, full_keys, regexp_keys, keyword_keys]
+  have e0 : keys ({} : Mix Unit).full = [] := rfl
+  simp only [e0, List.not_mem_nil, false_or]
+  constructor
+  · intro h
+    apply Classical.byContradiction
+    intro hno
+    apply h
+    refine ⟨?_, ?_, ?_, ?_⟩
+    · rintro ⟨r, hr, hk, hn⟩; exact hno ⟨r, hr, by unfold describes; rw [hk]; exact hn⟩
+    · rintro q hq ⟨r, hr, hk, hn⟩; exact hno ⟨r, hr, by unfold describes; rw [hk]; show scan (norm r.2) <+: _; rw [hn]; exact hq⟩
+    · rintro k ⟨r, hr, hk, rfl⟩
+      cases hb : re r.2 (norm name) with
+      | false => rfl
+      | true => exact absurd ⟨r, hr, by unfold describes; rw [hk]; exact hb⟩ hno
+    · rintro k ⟨r, hr, hk, rfl⟩
+      cases hb : isInfix (norm r.2) (norm name) with
+      | false => rfl
+      | true => exact absurd ⟨r, hr, by unfold describes; rw [hk]; exact hb⟩ hno
+  · rintro ⟨r, hr, hd⟩ ⟨h1, h2, h3, h4⟩
+    obtain ⟨kd, p⟩ := r
+    cases kd with
+    | full => exact h1 ⟨(.full, p), hr, rfl, hd⟩
+    | domain => exact h2 (scan (norm p)) hd ⟨(.domain, p), hr, rfl, rfl⟩
+    | regexp =>
+      have := h3 p ⟨(.regexp, p), hr, rfl, rfl⟩
+      unfold describes at hd
+      simp only at hd
+      rw [hd] at this; cases this
+    | keyword =>
+      have := h4 (norm p) ⟨(.keyword, p), hr, rfl, rfl⟩
+      unfold describes at hd
+      simp only at hd
+      rw [hd] at this; cases this
+
+/-! ### Sets assembled from other sets (`data_provider/domain_set`) -/
+
+/-- Some set reachable from set `i` through `sets:` (itself included) matches
+the name with its own rules. -/
+inductive Reach (defs : List SetDef) (name : Bytes) : Nat → Prop
+  | own {i : Nat} {d : SetDef} : defs[i]? = some d → d.own name = true → Reach defs name i
+  | ref {i j : Nat} {d : SetDef} : defs[i]? = some d → j ∈ d.refs → Reach defs name j → Reach defs name i
+
+theorem lookupAll_spec (built : List SetMatcher) (name : Bytes) : ∀ (js : List Nat) (rs : List SetMatcher),
+    lookupAll built js = some rs →
+      (rs.any (fun f => f name) = true ↔ ∃ j ∈ js, ∃ f, built[j]? = some f ∧ f name = true) ∧
+      (∀ j ∈ js, ∃ f, built[j]? = some f) := by
+  intro js
+  induction js with
+  | nil => intro rs h; simp [lookupAll] at h; subst h; simp
+  | cons j js ih =>
+    intro rs h
+    unfold lookupAll at h
+    cases hj : built[j]? with
+    | none => simp [hj] at h
+    | some m =>
+      cases hl : lookupAll built js with
+      | none => simp [hj, hl] at h
+      | some ms =>
+        simp [hj, hl] at h
+        subst h
+        obtain ⟨ih1, ih2⟩ := ih ms hl
+        constructor
+        · simp only [List.any_cons, Bool.or_eq_true, ih1, List.mem_cons]
+          constructor
+          · rintro (h | ⟨j', hj', f, hf, hfn⟩)
+            · exact ⟨j, Or.inl rfl, m, hj, h⟩
+            · exact ⟨j', Or.inr hj', f, hf, hfn⟩
+          · rintro ⟨j', (rfl | hj'), f, hf, hfn⟩
+            · rw [hj] at hf; injection hf with hf; subst hf; exact Or.inl hfn
+            · exact Or.inr ⟨j', hj', f, hf, hfn⟩
+        · intro j' hj'
+          rcases List.mem_cons.mp hj' with rfl | h'
+          · exact ⟨m, hj⟩
+          · exact ih2 j' h'
+
+/-- the matcher `NewDomainSet` returns for the set at position `k`, given that the matchers of the
+sets before it are right -/
+theorem newSet_spec (all : List SetDef) (name : Bytes)
+    (hkept : ∀ d ∈ all, d.kept = false → d.own name = false)
+    (built : List SetMatcher) (d : SetDef) (m : SetMatcher)
+    (hd : all[built.length]? = some d)
+    (hb : ∀ i f, built[i]? = some f → (f name = true ↔ Reach all name i))
+    (hm : newSet built d = some m) : m name = true ↔ Reach all name built.length := by
+  unfold newSet at hm
+  cases hl : lookupAll built d.refs with
+  | none => simp [hl] at hm
+  | some rs =>
+    simp only [hl, Option.some.injEq] at hm
+    subst hm
+    obtain ⟨h1, h2⟩ := lookupAll_spec built name d.refs rs hl
+    unfold groupMatch
+    rw [List.any_append, Bool.or_eq_true, h1]
+    constructor
+    · rintro (h | ⟨j, hj, f, hf, hfn⟩)
+      · cases hk : d.kept with
+        | false => simp [hk] at h
+        | true => simp [hk] at h; exact Reach.own hd h
+      · exact Reach.ref hd hj ((hb j f hf).mp hfn)
+    · intro h
+      generalize hk : built.length = k at h hd
+      cases h with
+      | own hd' ho =>
+        rw [hd] at hd'; injection hd' with hd'; subst hd'
+        left
+        cases hkk : d.kept with
+        | false =>
+          have := hkept d (List.mem_of_getElem? hd) hkk
+          rw [this] at ho; cases ho
+        | true => simp [ho]
+      | ref hd' hj hr =>
+        rw [hd] at hd'; injection hd' with hd'; subst hd'
+        right
+        obtain ⟨f, hf⟩ := h2 _ hj
+        exact ⟨_, hj, f, hf, (hb _ f hf).mpr hr⟩
+
+/-- **C12 (sets of sets).** The plugins of a configuration, built in order:
+the matcher of the set at position `i` matches a name iff the own rules of
+the set, or of a set it references directly or through other sets, match it
+(given that a set whose own matcher is dropped, `Len() = 0`, has no rule for
+the name). -/
+theorem buildSets_spec (all : List SetDef) (name : Bytes)
+    (hkept : ∀ d ∈ all, d.kept = false → d.own name = false) :
+    ∀ (rest done : List SetDef) (built ms : List SetMatcher),
+      all = done ++ rest → built.length = done.length →
+      (∀ i f, built[i]? = some f → (f name = true ↔ Reach all name i)) →
+      buildSets built rest = some ms →
+      ms.length = all.length ∧ ∀ i f, ms[i]? = some f → (f name = true ↔ Reach all name i) := by
+  intro rest
+  induction rest with
+  | nil =>
+    intro done built ms hall hlen hb h
+    simp only [buildSets, Option.some.injEq] at h
+    subst h
+    simp only [List.append_nil] at hall
+    subst hall
+    exact ⟨hlen, hb⟩
+  | cons d ds ih =>
+    intro done built ms hall hlen hb h
+    unfold buildSets at h
+    cases hm : newSet built d with
+    | none => simp [hm] at h
+    | some m =>
+      simp only [hm] at h
+      have hd : all[built.length]? = some d := by
+        rw [hall, hlen]; simp
+      have hmn := newSet_spec all name hkept built d m hd hb hm
+      refine ih (done ++ [d]) (built ++ [m]) ms (by simp [hall]) (by simp [hlen]) ?_ h
+      intro i f hif
+      by_cases hi : i < built.length
+      · rw [List.getElem?_append_left hi] at hif
+        exact hb i f hif
+      · by_cases hi' : i = built.length
+        · subst hi'
+          simp at hif
+          subst hif
+          exact hmn
+        · have : built.length + 1 ≤ i := by omega
+          rw [List.getElem?_eq_none (by simp; omega)] at hif
+          cases hif
+
+theorem sets_match (defs : List SetDef) (name : Bytes) (ms : List SetMatcher)
+    (hkept : ∀ d ∈ defs, d.kept = false → d.own name = false)
+    (h : buildSets [] defs = some ms) :
+    ms.length = defs.length ∧ ∀ i f, ms[i]? = some f → (f name = true ↔ Reach defs name i) :=
+  buildSets_spec defs name hkept defs [] [] ms (by simp) rfl (by intro i f hf; simp at hf) h
+
+/-! `Len() > 0` as soon as there is a rule: the own matcher of a set is dropped only if the set has no
+rules of its own. -/
+
+theorem subLen_add_pos (path : List Label) : ∀ (t : Trie Unit), 0 < (t.add path ()).subLen true := by
+  induction path with
+  | nil => intro t; simp [Trie.add, Trie.subLen, Trie.val]
+  | cons l ls ih =>
+    intro t
+    have hc := ih ((t.child l).getD Trie.empty)
+    unfold Trie.subLen at hc ⊢
+    simp only [Trie.add, Trie.setChild, Trie.len, Trie.lenKids]
+    simp only [Bool.true_and] at hc ⊢
+    omega
+
+theorem subLen_fold_pos : ∀ (ds : List (List Label × Unit)) (t : Trie Unit), ds ≠ [] →
+    0 < (ds.foldl (fun t r => t.add r.1 r.2) t).subLen true := by
+  intro ds
+  induction ds with
+  | nil => intro t h; exact absurd rfl h
+  | cons d ds ih =>
+    intro t _
+    by_cases hds : ds = []
+    · subst hds; exact subLen_add_pos d.1 t
+    · exact ih (t.add d.1 d.2) hds
+
+theorem keys_length_pos (l : List (Bytes × Unit)) (k : Bytes) (h : k ∈ keys l) : 0 < l.length := by
+  cases l with
+  | nil => simp [keys] at h
+  | cons _ _ => simp
+
+/-- a matcher that holds a rule has `Len() > 0` -/
+theorem len_pos_of_rule (rs : List (Kind × Bytes)) (r : Kind × Bytes) (hr : r ∈ rs) : 0 < (mixOfRules rs).len := by
+  have hm : mixOfRules rs = loadRules {} rs := rfl
+  unfold Mix.len Mix.lenWith
+  obtain ⟨kd, p⟩ := r
+  cases kd with
+  | full =>
+    have := keys_length_pos _ _ ((full_keys rs {} (norm p)).mpr (Or.inr ⟨_, hr, rfl, rfl⟩))
+    rw [hm]; omega
+  | regexp =>
+    have := keys_length_pos _ _ ((regexp_keys rs {} p).mpr (Or.inr ⟨_, hr, rfl, rfl⟩))
+    rw [hm]; omega
+  | keyword =>
+    have := keys_length_pos _ _ ((keyword_keys rs {} (norm p)).mpr (Or.inr ⟨_, hr, rfl, rfl⟩))
+    rw [hm]; omega
+  | domain =>
+    have hne : domRules rs ≠ [] := by
+      intro e
+      obtain ⟨x, hx, _⟩ := (mem_domRules rs (scan (norm p))).mpr ⟨_, hr, rfl, rfl⟩
+      rw [e] at hx; cases hx
+    have := subLen_fold_pos (domRules rs) ({} : Mix Unit).domain hne
+    rw [hm, domain_trie]; omega
+
+/-- Some rule of set `i`, or of a set it references directly or through other sets, describes the name. -/
+inductive SomeRule (re : Bytes → Bytes → Bool) (cfgs : List (List (Kind × Bytes) × List Nat)) (name : Bytes) : Nat → Prop
+  | own {i : Nat} {c : List (Kind × Bytes) × List Nat} {r : Kind × Bytes} :
+      cfgs[i]? = some c → r ∈ c.1 → describes re r name → SomeRule re cfgs name i
+  | ref {i j : Nat} {c : List (Kind × Bytes) × List Nat} :
+      cfgs[i]? = some c → j ∈ c.2 → SomeRule re cfgs name j → SomeRule re cfgs name i
+
+theorem reach_iff_someRule (re : Bytes → Bytes → Bool) (cfgs : List (List (Kind × Bytes) × List Nat)) (name : Bytes) (i : Nat) :
+    Reach (cfgs.map (defOfRules re)) name i ↔ SomeRule re cfgs name i := by
+  constructor
+  · intro h
+    induction h with
+    | own hd ho =>
+      rw [List.getElem?_map] at hd
+      obtain ⟨c, hc, rfl⟩ := Option.map_eq_some_iff.mp hd
+      obtain ⟨r, hr, hdesc⟩ := (rules_hit_iff re c.1 name).mp ho
+      exact SomeRule.own hc hr hdesc
+    | ref hd hj _ ih =>
+      rw [List.getElem?_map] at hd
+      obtain ⟨c, hc, rfl⟩ := Option.map_eq_some_iff.mp hd
+      exact SomeRule.ref hc hj ih
+  · intro h
+    induction h with
+    | own hc hr hdesc =>
+      exact Reach.own (by rw [List.getElem?_map, hc]; rfl) ((rules_hit_iff re _ name).mpr ⟨_, hr, hdesc⟩)
+    | ref hc hj _ ih =>
+      exact Reach.ref (by rw [List.getElem?_map, hc]; rfl) hj ih
+
+/-- **C12 for `domain_set` plugins.** Any configuration of sets (own rules of
+the four types plus references to sets built earlier, to any depth, sets
+shared between several others), built in configuration order: the set at
+position `i` matches a name if and only if some rule of the set itself or of
+a set it references, directly or through other sets, describes the name.
+(That the own matcher is kept only if `Len() > 0` loses nothing:
+`len_pos_of_rule`. With the `Len` of the tree before the fix of finding F14
+it did: `old_len_dropped_root_only_sets`.) -/
+theorem domain_sets_match (re : Bytes → Bytes → Bool) (cfgs : List (List (Kind × Bytes) × List Nat))
+    (name : Bytes) (ms : List SetMatcher)
+    (h : buildSets [] (cfgs.map (defOfRules re)) = some ms) :
+    ms.length = cfgs.length ∧ ∀ i f, ms[i]? = some f → (f name = true ↔ SomeRule re cfgs name i) := by
+  have hkept : ∀ d ∈ cfgs.map (defOfRules re), d.kept = false → d.own name = false := by
+    intro d hd hk
+    obtain ⟨c, hc, rfl⟩ := List.mem_map.mp hd
+    have hlen : (mixOfRules c.1).len = 0 := by
+      simp only [defOfRules, decide_eq_false_iff_not] at hk
+      omega
+    cases ho : (defOfRules re c).own name with
+    | false => rfl
+    | true =>
+      obtain ⟨r, hr, _⟩ := (rules_hit_iff re c.1 name).mp ho
+      have := len_pos_of_rule c.1 r hr
+      omega
+  obtain ⟨h1, h2⟩ := sets_match _ name ms hkept h
+  refine ⟨by simpa using h1, ?_⟩
+  intro i f hf
+  rw [h2 i f hf, reach_iff_someRule]
+
+/-- Finding F14, as a witness about the old `Len` (`SubDomainMatcher.Len = m.root.len()`, the root's
+own value not counted): a set whose only rule is the rule for the root - `domain:.` describes every
+name - had `Len() = 0`, so `NewDomainSet` dropped its matcher and the set matched nothing. With the
+repaired `Len` the same set counts one rule. -/
+theorem old_len_dropped_root_only_sets (re : Bytes → Bytes → Bool) (name : Bytes) :
+    describes re (.domain, [dot]) name ∧
+    (mixOfRules [(.domain, [dot])]).lenWith false = 0 ∧ (mixOfRules [(.domain, [dot])]).len = 1 := by
+  refine ⟨?_, by decide, by decide⟩
+  show scan (norm [dot]) <+: _
+  have : scan (norm [dot]) = [] := by decide
+  rw [this]; exact List.nil_prefix
+
+namespace Slices
+
+/-! ### Why a set's group slice must be its own: Go slices over shared backing arrays
+
+`GetDomainMatcher` hands out `MatcherGroup(d.mg)`: a slice header over the provider's backing array.
+`append` writes in place whenever that array has room beyond the slice's length, and every other
+header over the same array sees the write. Members are numbers here (which matcher); the heap is the
+list of backing arrays, a slice is (array, length) with offset 0, its capacity is the array's size.
+Array 0 is the empty array of the nil slice. -/
+
+structure Slice where
+  arr : Nat
+  len : Nat
+  deriving DecidableEq, Repr
+
+abbrev Heap := List (List Nat)
+
+def nil : Slice := ⟨0, 0⟩
+def cap (h : Heap) (s : Slice) : Nat := (h.getD s.arr []).length
+def view (h : Heap) (s : Slice) : List Nat := (h.getD s.arr []).take s.len
+
+/-- `append(s, x)`; `grow n` = how many spare slots a reallocation from length `n` leaves (any policy). -/
+def append (grow : Nat → Nat) (h : Heap) (s : Slice) (x : Nat) : Heap × Slice :=
+  if s.len < cap h s then (h.set s.arr ((h.getD s.arr []).set s.len x), ⟨s.arr, s.len + 1⟩)
+  else (h ++ [view h s ++ x :: List.replicate (grow s.len) 0], ⟨h.length, s.len + 1⟩)
+
+/-- `ds.mg = append(ds.mg, m)` for every member, starting from the nil slice of a fresh `DomainSet`
+(what `c12SetGroupOwned` says the constructor does). -/
+def buildOwned (grow : Nat → Nat) (h : Heap) (members : List Nat) : Heap × Slice :=
+  members.foldl (fun hs x => append grow hs.1 hs.2 x) (h, nil)
+
+/-- the sets of a configuration one after the other, each given by its members -/
+def buildAllOwned (grow : Nat → Nat) : Heap → List (List Nat) → Heap × List Slice
+  | h, [] => (h, [])
+  | h, ms :: rest =>
+    let r := buildOwned grow h ms
+    let r' := buildAllOwned grow r.1 rest
+    (r'.1, r.2 :: r'.2)
+
+/-- state of one set under construction: nothing below `L` (the arrays that existed before) has
+changed, and the set's slice is either still nil or lives in an array of its own -/
+structure Inv (h0 h : Heap) (s : Slice) (done : List Nat) : Prop where
+  len_le : h0.length ≤ h.length
+  frame : ∀ a, a < h0.length → h.getD a [] = h0.getD a []
+  wf : s.len ≤ cap h s
+  view_eq : view h s = done
+  own : (s.arr = 0 ∧ s.len = 0) ∨ (h0.length ≤ s.arr ∧ s.arr < h.length)
+
+theorem getD_set_ne (h : Heap) (i a : Nat) (v : List Nat) (hne : a ≠ i) : (h.set i v).getD a [] = h.getD a [] := by
+  simp [List.getD_eq_getElem?_getD, List.getElem?_set_ne (Ne.symm hne)]
+
+theorem getD_set_self (h : Heap) (i : Nat) (v : List Nat) (hi : i < h.length) : (h.set i v).getD i [] = v := by
+  simp [List.getD_eq_getElem?_getD, hi]
+
+theorem getD_append_left (h : Heap) (a : Nat) (v : List Nat) (ha : a < h.length) : (h ++ [v]).getD a [] = h.getD a [] := by
+  simp [List.getD_eq_getElem?_getD, List.getElem?_append_left ha]
+
+theorem getD_append_self (h : Heap) (v : List Nat) : (h ++ [v]).getD h.length [] = v := by
+  simp [List.getD_eq_getElem?_getD]
+
+theorem take_set_succ (a : List Nat) (n x : Nat) (hn : n < a.length) : (a.set n x).take (n + 1) = a.take n ++ [x] := by
+  induction a generalizing n with
+  | nil => simp at hn
+  | cons y ys ih =>
+    cases n with
+    | zero => simp
+    | succ n => simp at hn; simp [ih n hn]
+
+theorem take_append_cons (l r : List Nat) (x : Nat) : (l ++ x :: r).take (l.length + 1) = l ++ [x] := by
+  induction l with
+  | nil => simp
+  | cons y ys ih => simp [ih]
+
+theorem inv_step (grow : Nat → Nat) (h0 h : Heap) (s : Slice) (done : List Nat) (x : Nat)
+    (h00 : h0.getD 0 [] = []) (hpos : 0 < h0.length) (inv : Inv h0 h s done) :
+    Inv h0 (append grow h s x).1 (append grow h s x).2 (done ++ [x]) := by
+  obtain ⟨hle, hfr, hwf, hv, hown⟩ := inv
+  unfold append
+  by_cases hroom : s.len < cap h s
+  · -- in place: only possible in an array of the set's own
+    simp only [hroom, if_true]
+    have hown' : h0.length ≤ s.arr ∧ s.arr < h.length := by
+      rcases hown with ⟨ha, hl⟩ | h'
+      · exfalso
+        unfold cap at hroom
+        rw [ha, hfr 0 hpos, h00] at hroom
+        simp at hroom
+      · exact h'
+    refine ⟨by simpa using hle, ?_, ?_, ?_, Or.inr ⟨hown'.1, by simpa using hown'.2⟩⟩
+    · intro a ha
+      rw [getD_set_ne _ _ _ _ (by omega)]
+      exact hfr a ha
+    · show s.len + 1 ≤ cap _ _
+      unfold cap
+      simp only [getD_set_self _ _ _ hown'.2, List.length_set]
+      exact hroom
+    · unfold view
+      simp only [getD_set_self _ _ _ hown'.2]
+      rw [take_set_succ _ _ _ hroom]
+      unfold view at hv
+      rw [hv]
+  · simp only [hroom, if_false]
+    have hlen : (view h s).length = s.len := by
+      unfold view cap at *
+      simp only [List.length_take]
+      omega
+    refine ⟨by simp; omega, ?_, ?_, ?_, Or.inr ⟨hle, by simp⟩⟩
+    · intro a ha
+      rw [getD_append_left _ _ _ (by omega)]
+      exact hfr a ha
+    · show s.len + 1 ≤ cap _ _
+      unfold cap
+      rw [getD_append_self, List.length_append, List.length_cons, hlen]
+      omega
+    · unfold view
+      simp only [getD_append_self]
+      have := take_append_cons (view h s) (List.replicate (grow s.len) 0) x
+      rw [hlen] at this
+      unfold view at this hv
+      rw [this, hv]
+
+theorem inv_init (h0 : Heap) : Inv h0 h0 nil [] :=
+  ⟨Nat.le_refl _, fun _ _ => rfl, Nat.zero_le _, by simp [view, nil], Or.inl ⟨rfl, rfl⟩⟩
+
+theorem inv_fold (grow : Nat → Nat) (h0 : Heap) (h00 : h0.getD 0 [] = []) (hpos : 0 < h0.length) :
+    ∀ (ms : List Nat) (hs : Heap × Slice) (done : List Nat), Inv h0 hs.1 hs.2 done →
+      Inv h0 (ms.foldl (fun hs x => append grow hs.1 hs.2 x) hs).1 (ms.foldl (fun hs x => append grow hs.1 hs.2 x) hs).2 (done ++ ms) := by
+  intro ms
+  induction ms with
+  | nil => intro hs done inv; simpa using inv
+  | cons x xs ih =>
+    intro hs done inv
+    have := ih (append grow hs.1 hs.2 x) (done ++ [x]) (inv_step grow h0 hs.1 hs.2 done x h00 hpos inv)
+    simpa using this
+
+theorem buildOwned_inv (grow : Nat → Nat) (h0 : Heap) (h00 : h0.getD 0 [] = []) (hpos : 0 < h0.length) (ms : List Nat) :
+    Inv h0 (buildOwned grow h0 ms).1 (buildOwned grow h0 ms).2 ms := by
+  have := inv_fold grow h0 h00 hpos ms (h0, nil) [] (inv_init h0)
+  simpa [buildOwned] using this
+
+/-- **Sets that own their group slice keep their members.** However many sets are built one after
+the other, each by appending its members one at a time to its own (initially nil) slice, and whatever
+the growth policy of `append`: in the final heap every set's slice still shows exactly the members it
+was given. -/
+theorem owned_sets_keep_their_members (grow : Nat → Nat) : ∀ (mss : List (List Nat)) (h0 : Heap),
+    h0.getD 0 [] = [] → 0 < h0.length →
+    (buildAllOwned grow h0 mss).2.length = mss.length ∧
+    h0.length ≤ (buildAllOwned grow h0 mss).1.length ∧
+    (∀ a, a < h0.length → (buildAllOwned grow h0 mss).1.getD a [] = h0.getD a []) ∧
+    ∀ (i : Nat) (s : Slice) (ms : List Nat), (buildAllOwned grow h0 mss).2[i]? = some s → mss[i]? = some ms →
+      view (buildAllOwned grow h0 mss).1 s = ms := by
+  intro mss
+  induction mss with
+  | nil => intro h0 _ _; simp [buildAllOwned]
+  | cons ms rest ih =>
+    intro h0 h00 hpos
+    obtain ⟨hle, hfr, _, hv, hown⟩ := buildOwned_inv grow h0 h00 hpos ms
+    have hpos' : 0 < (buildOwned grow h0 ms).1.length := by omega
+    have h00' : (buildOwned grow h0 ms).1.getD 0 [] = [] := by rw [hfr 0 hpos]; exact h00
+    obtain ⟨i1, i2, i3, i4⟩ := ih (buildOwned grow h0 ms).1 h00' hpos'
+    simp only [buildAllOwned]
+    refine ⟨by simp [i1], by omega, ?_, ?_⟩
+    · intro a ha
+      rw [i3 a (by omega)]
+      exact hfr a ha
+    · intro i s ms' hs hms
+      cases i with
+      | zero =>
+        simp at hs hms
+        subst hs; subst hms
+        have harr : (buildOwned grow h0 ms).2.arr < (buildOwned grow h0 ms).1.length := by
+          rcases hown with ⟨ha, _⟩ | ⟨_, hb⟩
+          · rw [ha]; exact hpos'
+          · exact hb
+        unfold view
+        rw [i3 _ harr]
+        exact hv
+      | succ i =>
+        simp at hs hms
+        exact i4 i s ms' hs hms
+
+/-- Go's growth for small slices: capacity 1, 2, 4, 8, ... -/
+def goGrow (n : Nat) : Nat := n - 1
+
+/-- the other constructor: a set that has nothing of its own yet takes the first referenced group's
+slice as it is and appends the further members to it -/
+def buildSharing (grow : Nat → Nat) (h : Heap) (first : Slice) (more : List Nat) : Heap × Slice :=
+  more.foldl (fun hs x => append grow hs.1 hs.2 x) (h, first)
+
+/-- ... and what happens then: a base of three members (capacity 4), `direct` = base + member 20,
+`blocked` = base + member 30, built in this order. Both appends go into the spare slot of the base's
+array: `direct` ends up with `blocked`'s member. With slices of their own (copying the base's
+members) both sets are what they were given. -/
+theorem shared_group_slice_mixes_sets_up :
+    let b := buildOwned goGrow [[]] [10, 11, 12]
+    let d1 := buildSharing goGrow b.1 b.2 [20]
+    let d2 := buildSharing goGrow d1.1 b.2 [30]
+    view d1.1 d1.2 = [10, 11, 12, 20] ∧ view d2.1 d1.2 = [10, 11, 12, 30] ∧ view d2.1 d2.2 = [10, 11, 12, 30] ∧
+    view d2.1 b.2 = [10, 11, 12] ∧
+    (let r := buildAllOwned goGrow [[]] [[10, 11, 12], [10, 11, 12, 20], [10, 11, 12, 30]]
+     r.2.map (view r.1) = [[10, 11, 12], [10, 11, 12, 20], [10, 11, 12, 30]]) := by decide
+
+
+end Slices
+
 /-! ### Guards over the regenerated facts -/
 theorem facts_guard :
     Gen.Facts.c12WalkUpdatesOnlyIfHasValue = some true ∧
     Gen.Facts.c12MixOrder = some true ∧
     Gen.Facts.c12KeywordUsesContains = some true ∧
     Gen.Facts.c12NormalizeLowerTrim = some true ∧
-    Gen.Facts.c12SubMatchersNormalize = some true := by decide
+    Gen.Facts.c12SubMatchersNormalize = some true ∧
+    -- domain_set: the shape `newSet` / `Trie.len` / `groupMatch` were written from, and the ownership of
+    -- the group slice that `Slices.owned_sets_keep_their_members` needs
+    Gen.Facts.c12SetMembersOwnThenSets = some true ∧
+    Gen.Facts.c12GroupMatchIsAny = some true ∧
+    Gen.Facts.c12LenCountsValuedNodesAndRoot = some true ∧
+    Gen.Facts.c12SetGroupOwned = some true := by decide
+
+/-- On this tree the constructor of `domain_set` is the owning one (`c12SetGroupOwned`: every write to
+a set's group is `ds.mg = append(ds.mg, m)` onto the new set's own slice): whatever sets a configuration
+builds, in whatever order, each one's group holds exactly the members it was given, for every growth
+policy of `append`. -/
+theorem sets_keep_their_members_on_this_tree (grow : Nat → Nat) (mss : List (List Nat)) :
+    Gen.Facts.c12SetGroupOwned = some true ∧
+    ∀ (i : Nat) (s : Slices.Slice) (ms : List Nat),
+      (Slices.buildAllOwned grow [[]] mss).2[i]? = some s → mss[i]? = some ms →
+        Slices.view (Slices.buildAllOwned grow [[]] mss).1 s = ms :=
+  ⟨by decide, (Slices.owned_sets_keep_their_members grow mss [[]] rfl (by decide)).2.2.2⟩
 
 /-! ### Non-vacuity: "example.com" with rules domain:example.com=1, domain:a.b.example.com=2,
 full:example.com=3, keyword:xam=4; names on and off label boundaries. -/
